@@ -35,7 +35,8 @@
         error. *)
 From Coq Require Import String List Arith NArith.
 From WacV Require Import Str StrLit Token Lexer Semver Names Ast Graph Resolver LangSpec
-  ResolverProofs ResolverNew ResolverStmts ResolverWitness.
+  GraphInv GraphTheorems ResolverProofs ResolverNew ResolverStmts ResolverInv ResolverWitness
+  ResolverSim ResolverSimExpr ResolverSimNew ResolverSimStmt ResolverSimObs.
 Import ListNotations.
 Local Open Scope nat_scope.
 
@@ -64,21 +65,18 @@ Section C04.
       final table, every import [i] of the package is bound by the first applicable rule
       ([LangSpec.bind_import]): the explicit argument named [i]; else the first spread whose instance
       exports [i], through the graph's alias of that export; else nothing (an implicit import) when
-      [...] is present; and no import is missing.  Every entry of [t2] is an argument of the new
-      instantiation in the resulting graph ([Graph.get_args]).
-
-      PARTIAL in one respect (full statement: the arguments of [inst] in the resulting graph are EXACTLY
-      the entries of [t2], and the imports without an entry are listed by [Graph.list_imports] as
-      implicit imports): the converse inclusion -- [inst] has no other argument -- needs the edge
-      invariant of C06 ([GraphInv.Inv]: no edge points to a slot that is not yet allocated) threaded
-      through the resolver, which is not done here; the correspondence compares the full argument
-      lists on every generated program. *)
-  Theorem arg_binding_spec_partial pkg args st inst st' :
+      [...] is present; and no import is missing.  The arguments of the new instantiation in the
+      resulting graph ([Graph.get_args]) are EXACTLY the entries of [t2]: every entry is an argument,
+      and there is no other argument (the converse uses the graph invariant of C06, [GraphInv.Inv],
+      which the resolver preserves because it only performs [Graph.step] operations). *)
+  Theorem arg_binding_spec pkg args st inst st' :
     new_expr u self_name (eval_expr u self_name) pkg args st = inl (inst, st') ->
-    nofree (rs_g st) ->
+    nofree (rs_g st) -> Inv u (rs_g st) ->
     exists id pd t1 req recs t2,
       pkg_desc u (rs_g st') id = Some pd /\
       (forall nm n at_, im_get t2 nm = Some (n, at_) -> In (ru_intern u nm, n) (get_args u (rs_g st') inst)) /\
+      (forall a src, In (a, src) (get_args u (rs_g st') inst) ->
+         exists nm at_, In (nm, (src, at_)) t2 /\ a = ru_intern u nm) /\
       (NoDup (map fst (text_items u (pd_imports pd))) ->
         NoDup (map fst t1) /\ length t1 = length (filter is_explicit_arg args) /\
         req = negb (existsb is_fill_arg args) /\
@@ -93,9 +91,15 @@ Section C04.
            | BMissing => False
            end)).
   Proof.
-    intros H NF. apply (new_expr_binding u self_name (eval_expr u self_name) pkg args st inst st' H); auto.
-    apply Forall_forall. intros a _. destruct a; auto. apply mframe_eval_expr.
+    intros H NF HI. apply (new_expr_binding_exact u self_name (eval_expr u self_name) pkg args st inst st' H); auto.
+    - apply Forall_forall. intros a _. destruct a; auto. apply mframe_eval_expr.
+    - apply Forall_forall. intros a _. destruct a; auto. apply mpres_eval_expr. intros g o. apply step_inv.
   Qed.
+
+  (** every graph the resolver returns is reachable by graph operations from the empty graph, hence
+      satisfies the invariant of C06 *)
+  Theorem resolved_graph_invariant d st : resolve u d = inl st -> reachable u (rs_g st) /\ Inv u (rs_g st).
+  Proof. intros H. split; [exact (resolve_reachable u d st H)|exact (resolve_inv u d st H)]. Qed.
 
   (** * 2. spreads and fill *)
 
@@ -208,17 +212,10 @@ Section C04.
     gframe (rs_g st) (rs_g st') /\ rs_scope st' = rs_scope st.
   Proof. exact (mframe_eval_expr u self_name e st item st'). Qed.
 
-  (** * 6. each ill-formedness class <-> its diagnostic, at the construct that detects it.
-
-      PARTIAL (full statement: for every document [d] in scope, [resolve u d = inr (FErr e)] iff
-      [LangSpec.denote impl_flags_c04 u d = inr c] with [c] the class of [e], and [resolve u d = inl st]
-      iff [denote] gives the composition [st] denotes): what is proved is, for each of the nine classes
-      of the property, the equivalence between the ill-formedness condition and the diagnostic (variant,
-      name, span start) at the function of the resolver that detects it, given that the evaluation
-      reaches that point; the composition of these through expressions and statements into a statement
-      about whole documents -- a simulation between [Resolver.resolve] and [LangSpec.denote] -- is not
-      proved; it is checked on every generated program and fault variant by the correspondence. *)
-  Theorem illformed_rejected_partial :
+  (** * 6a. each ill-formedness class <-> its diagnostic, at the construct that detects it, with the
+      START OF THE SPAN of the primary label (the reference says nothing about spans; the
+      whole-document statement below, [illformed_rejected], is about the class and the name). *)
+  Theorem illformed_rejected_at_construct :
     (* undefined name *)
     (forall id st, im_get (rs_scope st) (id_string id) = None <->
                    local_item id st = inr (FErr (EUndefinedName (id_string id) (off (id_span id))))) /\
@@ -268,6 +265,89 @@ Section C04.
   Qed.
 End C04.
 
+(** * 6. Whole documents: the resolver model simulates the reference evaluation.
+
+    [uok u K]: well-formedness of the universe (the name table is a bijection on the names in use, the
+    [packages] map points into the package table, import names of a package are pairwise different,
+    kinds are closed under the oracles and are indexes of [u_lkinds]).  [Rel u K st env vm]: the
+    resolver state [st] DENOTES the composition [env], with [vm] the value of every node: every node
+    has a kind-correct value (import / k-th instantiation / access of its source's value), the scope,
+    the export map and the explicit imports are the denoted ones in order, and the argument edges of
+    every instantiation node are exactly the bound imports of the denoted instantiation
+    ([composition_observed] spells this out on the graph queries).
+
+    For every document without a [targets] clause:
+      - the reference denotes a composition  iff  the model resolves, and then the resulting state
+        denotes that composition;
+      - the reference makes the document ill-formed with class [c] (and name)  iff  the model rejects
+        it, with a diagnostic of that class (and name) -- [FUnsupported] corresponding to
+        [IOutOfScope] (type statements, inline interfaces, declared types in function types);
+      - the model never panics. *)
+Theorem document_simulation (u : runiverse) (K : kid -> Prop) (d : document) :
+  uok u K -> pd_targets (doc_directive d) = None ->
+  match resolve u d, denote impl_flags_c04 u d with
+  | inl st, inl env => exists vm, Rel u K st env vm
+  | inr f, inr i => fail_matches f i
+  | _, _ => False
+  end.
+Proof. exact (resolve_simulates_denote u K d). Qed.
+
+Theorem illformed_rejected (u : runiverse) (K : kid -> Prop) (d : document) :
+  uok u K -> pd_targets (doc_directive d) = None ->
+  (forall c, denote impl_flags_c04 u d = inr c <-> exists f, resolve u d = inr f /\ fail_matches f c) /\
+  (forall e c, resolve u d = inr (FErr e) -> denote impl_flags_c04 u d = inr c -> class_of e = c) /\
+  (forall p, resolve u d <> inr (FPanic p)) /\
+  ((exists env, denote impl_flags_c04 u d = inl env) <-> (exists st, resolve u d = inl st)).
+Proof.
+  intros U NT. pose proof (resolve_simulates_denote u K d U NT) as S.
+  destruct (resolve u d) as [st|f] eqn:E1, (denote impl_flags_c04 u d) as [env|i] eqn:E2; try (exfalso; exact S).
+  - split; [intros c; split; [discriminate|intros (f & X & _); discriminate]|].
+    split; [discriminate|]. split; [discriminate|]. split; eauto.
+  - split.
+    + intros c. split.
+      * intros [= <-]. eauto.
+      * intros (f' & [= <-] & M). destruct f as [e|p|w]; cbn in S, M; [congruence| |congruence]. destruct S.
+    + split; [intros e c [= ->] [= <-]; exact S|]. split.
+      * intros p [= ->]. exact S.
+      * split; intros [x X]; discriminate.
+Qed.
+
+(** What "denotes" means on the queries of the resulting graph. *)
+Theorem composition_observed (u : runiverse) (K : kid -> Prop) st env vm :
+  uok u K -> Rel u K st env vm ->
+  (* exports, in order *)
+  Forall2 (fun a b => ru_text u (fst a) = fst b /\ nth_error vm (snd a) = Some (snd b)) (exports (rs_g st)) (se_exports env) /\
+  (* explicit imports, in order *)
+  Forall2 (fun a b => ru_text u (fst a) = fst b /\ nth_error vm (snd a) = Some (VImport (fst b)) /\
+                      exists nd, get_node (rs_g st) (snd a) = Some nd /\ nk nd = NImport (fst a) /\ nitem nd = snd b)
+          (rev (imports (rs_g st))) (se_imports env) /\
+  (* alias nodes *)
+  (forall k w e, nth_error vm k = Some (VAccess w e) ->
+     exists src nm, get_alias_source u (rs_g st) k = Some (src, nm) /\ ru_text u nm = e /\ nth_error vm src = Some w) /\
+  (* every denoted instantiation has a node ... *)
+  (forall j, j < length (se_insts env) -> exists k, nth_error vm k = Some (VInst j)) /\
+  (* ... whose arguments are exactly the bound imports, with the denoted values *)
+  (forall k j si, nth_error vm k = Some (VInst j) -> nth_error (se_insts env) j = Some si ->
+     exists pd id nd,
+       nth_error (u_pkgs u) (si_pkg si) = Some pd /\ get_node (rs_g st) k = Some nd /\ npkg nd = Some id /\
+       get_pkg (rs_g st) id = Some (si_pkg si) /\ nitem nd = pd_inst pd /\
+       map fst (si_bindings si) = map fst (text_items u (pd_imports pd)) /\
+       (forall a src, In (a, src) (get_args u (rs_g st) k) ->
+          exists idx kd b v, nth_error (pd_imports pd) idx = Some (a, kd) /\
+            nth_error (si_bindings si) idx = Some (ru_text u a, b) /\ binding_value (ru_text u a) b = Some v /\
+            nth_error vm src = Some v) /\
+       (forall idx a kd b, nth_error (pd_imports pd) idx = Some (a, kd) ->
+          nth_error (si_bindings si) idx = Some (ru_text u a, b) ->
+          match binding_value (ru_text u a) b with
+          | Some v => exists src, In (a, src) (get_args u (rs_g st) k) /\ nth_error vm src = Some v /\
+                        forall src', In (a, src') (get_args u (rs_g st) k) -> src' = src
+          | None => forall src, ~ In (a, src) (get_args u (rs_g st) k)
+          end)).
+Proof.
+  intros U R. split; [exact (obs_exports u K U st env vm R)|]. split; [exact (obs_imports u K U st env vm R)|].
+  split; [exact (obs_alias u K st env vm R)|]. split; [exact (r_insts _ _ _ _ _ R)|exact (obs_args u K U st env vm R)].
+Qed.
+
 (** * The reference as written is contradicted by the faithful model (findings) *)
 
 (** 3-refuted. [p.f] where [p] exports both [f] and [x:y/f]: the reference as written selects the
@@ -300,7 +380,8 @@ Example four_argument_forms :
 Proof. exact w_args_model. Qed.
 
 Print Assumptions arg_name_spec.
-Print Assumptions arg_binding_spec_partial.
+Print Assumptions arg_binding_spec.
+Print Assumptions resolved_graph_invariant.
 Print Assumptions spread_fill_spec.
 Print Assumptions fill_must_be_last.
 Print Assumptions access_spec.
@@ -309,6 +390,9 @@ Print Assumptions export_spread_name_spec.
 Print Assumptions import_name_spec.
 Print Assumptions let_only_names.
 Print Assumptions expressions_only_extend.
-Print Assumptions illformed_rejected_partial.
+Print Assumptions illformed_rejected_at_construct.
+Print Assumptions document_simulation.
+Print Assumptions illformed_rejected.
+Print Assumptions composition_observed.
 Print Assumptions access_spec_doc_refuted.
 Print Assumptions export_spread_doc_refuted.
